@@ -10,6 +10,14 @@
 (*                              the bad permutations it was tested on      *)
 (*   MaxMesh(q, occ, res)       maximal_mesh_pattern_of_occurrence         *)
 (*   Describes(SG, q, prop)     auto_bisc's answer against the property    *)
+(*   SameAs(SG1, SG2, clause)   two pattern collections that must be equal *)
+(*                              as sets of mesh patterns; the clause names *)
+(*                              the promise (a helper left its argument    *)
+(*                              alone, to_sg_format round trip, the same   *)
+(*                              object asked twice)                        *)
+(*   SufficeW(kind, SG, L, S, res, wit)  as Suffice, with the permutations *)
+(*                              handed back next to the verdict: they must *)
+(*                              be checked ones that really offend         *)
 (***************************************************************************)
 EXTENDS BiscSpec, Json, IOUtils
 Trace == JsonDeserialize(IOEnv.TRACE_FILE)
@@ -32,9 +40,15 @@ TSuffice == /\ Ev.op = "Suffice"
             /\ LET SG == AsSG(Ev.SG)  S == {q \in ToSetOf(Ev.S) : Len(q) <= Ev.L}
                    want == IF Ev.kind = "good" THEN \A q \in S : ~BContainsAny(q, SG) ELSE \A q \in S : BContainsAny(q, SG) IN
                bad' = IF Ev.res = want THEN bad ELSE Flag("SufficeChecksAgree")
+TSameAs == Ev.op = "SameAs" /\ bad' = IF AsSG(Ev.SG1) = AsSG(Ev.SG2) THEN bad ELSE Flag(Ev.clause)
+TSufficeW == /\ Ev.op = "SufficeW"
+             /\ LET SG == AsSG(Ev.SG)  S == {q \in ToSetOf(Ev.S) : Len(q) <= Ev.L}  W == ToSetOf(Ev.wit) IN
+                bad' = IF Ev.res # (BOffenders(Ev.kind, S, SG) = {}) THEN Flag("SufficeChecksAgree")
+                       ELSE IF ~BWitnessesOK(Ev.kind, S, SG, Ev.res, W) THEN Flag("SufficeWitnessesOffend")
+                       ELSE bad
 TCleanUp == Ev.op = "CleanUp" /\ bad' = IF \A q \in ToSetOf(Ev.Bad) : BContainsAny(q, AsSG(Ev.SG)) THEN bad ELSE Flag("CleanUpBasesHitEveryBad")
 TMaxMesh == Ev.op = "MaxMesh" /\ bad' = IF ToSetOf(Ev.res) = BMaximalShading(Ev.q, [i \in DOMAIN Ev.occ |-> Ev.occ[i] + 1]) THEN bad ELSE Flag("MaximalShadingOfOccurrence")
 TDescribes == Ev.op = "Describes" /\ bad' = IF Ev.prop = ~BContainsAny(Ev.q, AsSG(Ev.SG)) THEN bad ELSE Flag("AutoBiscDescribesProperty")
-TNext == l <= Len(Trace) /\ l' = l + 1 /\ (TBisc \/ TSame \/ TContains \/ TSuffice \/ TCleanUp \/ TMaxMesh \/ TDescribes)
+TNext == l <= Len(Trace) /\ l' = l + 1 /\ (TBisc \/ TSame \/ TContains \/ TSuffice \/ TCleanUp \/ TMaxMesh \/ TDescribes \/ TSameAs \/ TSufficeW)
 TraceDone == l = Len(Trace) + 1 => PrintT(ToJson([verdict |-> bad, drift |-> <<>>, n |-> Len(Trace)]))
 =============================================================================
